@@ -574,8 +574,20 @@ class Spy:
         self.calls = []
 
 
+def find_rule(router_obj, rid):
+    """The rule object a MessageRouter keeps for the id `rid`, wherever it keeps it (dict, list, ...)."""
+    for v in vars(router_obj).values():
+        cands = list(v.values()) if isinstance(v, dict) else (list(v) if isinstance(v, (list, tuple, set)) else [])
+        for o in cands:
+            if getattr(o, 'id', None) == rid and hasattr(o, 'match'):
+                return o
+    return None
+
+
 def stored_rule(r):
-    """Canonical view of a real router.Rule: the `simple` list and the attributes set by Rule.add."""
+    """The logical content of a real router.Rule, read through a layout-agnostic accessor: the (key, value)
+    constraints it holds - in its `simple` list, as instance attributes, or inside any dict attribute (the private
+    layout of Rule objects is not the property's business)."""
     def val(v):
         if v is None:
             return '~'
@@ -585,27 +597,40 @@ def stored_rule(r):
             return 'i%d' % v
         if isinstance(v, str):
             return 's' + hx(v)
-        if isinstance(v, list):
-            return 'p' + enc_pairs(v)
-        return 'x' + repr(v)
-    simple = ';'.join('%s:%s' % (k, val(v)) for k, v in r.simple) or '.'
-    own = [k for k in r.__dict__ if k not in ('callback', 'id', 'router', 'simple')]
-    attrs = ';'.join('%s:%s' % (k, val(r.__dict__[k])) for k in own) or '.'
-    return 'simple=%s attrs=%s' % (simple, attrs)
+        if isinstance(v, (list, tuple)) and all(isinstance(e, (list, tuple)) and len(e) == 2 and isinstance(e[0], int)
+                                                and isinstance(e[1], str) for e in v):
+            return 'p' + enc_pairs(list(v))
+        raise TypeError('unreadable')
+    if r is None:
+        return 'rule=?'               # the router's bookkeeping is not recognisable: compared by behaviour only
+    entries = []
+    for k, v in vars(r).items():
+        if k in ('callback', 'id', 'router') or callable(v):
+            continue
+        if isinstance(v, dict):
+            entries += list(v.items())
+        elif isinstance(v, (list, tuple)) and all(isinstance(e, tuple) and len(e) == 2 and isinstance(e[0], str) for e in v):
+            entries += list(v)                  # a list of (key, value) pairs (`simple`)
+        else:
+            entries.append((k, v))
+    try:
+        return 'rule=' + (';'.join(sorted('%s:%s' % (k, val(v)) for k, v in entries)) or '.')
+    except TypeError:
+        return 'rule=?'               # holds something that is not plain data (closures, ...): behaviour only
 
 
 def canon_stored(line):
-    """A stored rule up to the order of its entries (the order in which addMatch stores the constraints of a
-    conjunction is not observable through the property)."""
-    parts = line.split(' ')
-    out = []
-    for p in parts:
+    """A stored rule as the set of its constraints (model: 'simple=.. attrs=..'; implementation: 'rule=..'):
+    where and in which order addMatch keeps the constraints of a conjunction is not observable."""
+    if ' ' not in line and '=' not in line:
+        return line
+    entries = []
+    for p in line.split(' '):
         if '=' in p:
-            k, v = p.split('=', 1)
-            out.append(k + '=' + ';'.join(sorted(v.split(';'))))
-        else:
-            out.append(p)
-    return ' '.join(out)
+            v = p.split('=', 1)[1]
+            if v != '.':
+                entries += v.split(';')
+    return 'rule=' + (';'.join(sorted(entries)) or '.')
 
 
 CLOSED_KEYS = ['type', 'sender', 'interface', 'member', 'path', 'path_namespace', 'destination', 'arg0namespace']
@@ -750,7 +775,10 @@ def stream_pairs(ctx, cases, label):
             hits = []
             try:
                 rid = r.addMatch(hits.append, **call_kw(kw))
-                stored = stored_rule(r._rules[rid])
+                try:
+                    stored = stored_rule(find_rule(r, rid))
+                except Exception:
+                    stored = 'rule=?'
             except Exception as e:
                 stored = 'addfailed'
                 rid = None
@@ -769,6 +797,7 @@ def stream_pairs(ctx, cases, label):
     finally:
         router.log = saved
     out = ctx.model(lines)
+    layout_differs = []
     for i, (kw, spec, parse, mv, stored, outcome, called, logged, m) in enumerate(obs):
         inp = {'stream': 'match-pairs', 'rule': clean_kw(kw), 'message': spec, 'parsed': parse}
         ctx.case('mkrule', sample={'rule': clean_kw(kw)})
@@ -788,8 +817,10 @@ def stream_pairs(ctx, cases, label):
             ctx.stat('rule-key:' + k)
         if out is not None:
             m_stored, m_out, m_spec = out[3 * i], out[3 * i + 1], out[3 * i + 2]
-            if canon_stored(m_stored) != canon_stored(stored):
-                ctx.disagree('mkrule', {'rule': clean_kw(kw)}, m_stored, stored)
+            if stored == 'rule=?':
+                ctx.stat('mkrule:layout-not-recognised(compared by behaviour only)')
+            elif canon_stored(m_stored) != canon_stored(stored):
+                layout_differs.append((kw, m_stored, stored))
             # the model separates "returned quietly" from "raised and logged"; compare the invocation,
             # keep the logging difference as a statistic (a guard that avoids the exception is harmless)
             if (m_out == 'call') != (outcome == 'call') or (m_out == 'addfailed') != (outcome == 'addfailed') \
@@ -806,6 +837,39 @@ def stream_pairs(ctx, cases, label):
             if called > 1:
                 ctx.violation('invoked-twice', 'one rule, one message: callback invoked %d times' % called, inp=inp,
                               observed=called, expected=1)
+    if layout_differs:
+        confirm_by_behaviour(ctx, layout_differs)
+
+
+def confirm_by_behaviour(ctx, layout_differs):
+    """The constraints read off a real Rule object differ from the model's stored rule.  The layout of Rule objects
+    is private: what counts is which messages the rule matches - run the rule against a battery of signals on the
+    real router and on the model; only a behavioural difference is a disagreement."""
+    seen = set()
+    todo = []
+    for kw, m_stored, stored in layout_differs:
+        key = json.dumps(clean_kw(kw), sort_keys=True)
+        if key in seen or len(todo) >= 40:
+            continue
+        seen.add(key)
+        todo.append((kw, m_stored, stored))
+    lines, impl = [], []
+    for kw, m_stored, stored in todo:
+        for spec in PROBE_SPECS + derived_specs(kw):
+            m = build_message(spec)
+            lines.append('match ' + enc_rule(kw) + ' ' + enc_msg(view(m)))
+            impl.append(impl_single(kw, m))
+    out = ctx.model(lines) or []
+    k = 0
+    for kw, m_stored, stored in todo:
+        n = len(PROBE_SPECS + derived_specs(kw))
+        bad = [j for j in range(k, k + n) if (out[j] == 'call') != bool(impl[j])] if out else []
+        k += n
+        if bad:
+            ctx.disagree('mkrule', {'rule': clean_kw(kw)}, m_stored, stored,
+                         detail='stored rule differs and so does its behaviour: ' + lines[bad[0]])
+        else:
+            ctx.stat('mkrule:layout-differs-behaviour-same')
 
 
 def gen_history(rng, n_ops):
